@@ -18,6 +18,7 @@ ValuesOf(k) ==
   CASE k = "any"   -> { <<"a">>, <<"a", "SP", "b">>, <<"EACUTE">>, <<"PCT", "2", "F">>, <<"a", "QM", "b">>, <<"HASH", "1">>, <<"a", ".", "b">>, <<"1">>,
                        <<"{", "y", "}">>, <<"{", "x", "}">> }     \* a value that reads like the placeholder of another variable
     [] k = "dig"   -> { <<"7">>, <<"4", "2">>, <<"0">> }
+    [] k = "digb"  -> { <<"7">>, <<"4", "2">> }
     [] k = "num"   -> { <<"5">>, <<"1", "0">> }
     [] k = "word"  -> { <<"a", "_", "1">>, <<"x">> }
     [] k = "all"   -> { <<>>, <<"a">>, <<"a", "/", "b">>, <<"a", "SP", "QM">> }
